@@ -3,7 +3,7 @@ from ..cfg import CFG
 from ..harness import where
 from ..lineage import adaptor_chain, through
 from ..mirutil import Defs, Tracer, call_matches, callee_name, const_value, field_path
-from .C20 import PANIC_CALLS, _generated, _ptrcheck
+from .C20 import PANIC_CALLS, _generated, _ptrcheck, is_panic_call
 
 LEVEL = 'other'
 EXPLANATION = ('(R1/R2) "never crashes": every panic-capable construct reachable from Transform2::from_operations, WyckoffSite::new '
@@ -237,7 +237,7 @@ def run(ctx):
             if bb['cleanup']:
                 continue
             t = bb['term']
-            if bi in dbg and (t['t'] == 'assert' or (t['t'] == 'call' and any(p in (callee_name(t) or '') for p in PANIC_CALLS))):
+            if bi in dbg and (t['t'] == 'assert' or (t['t'] == 'call' and is_panic_call(callee_name(t) or ''))):
                 n_debug += 1        # a debug_assert! self-check (not decided; absent when debug assertions are off)
                 continue
             if t['t'] == 'assert':
@@ -255,7 +255,7 @@ def run(ctx):
                              'a %s check can panic on some input string' % kind)
             elif t['t'] == 'call':
                 n = callee_name(t) or ''
-                if not any(p in n for p in PANIC_CALLS):
+                if not is_panic_call(n):
                     continue
                 n_sites += 1
                 if '(usize, usize)' in n and 'index' in n.rsplit('::', 1)[-1]:
